@@ -425,9 +425,6 @@ def materialise(src):
             ppos, zero = (ppos or ts.sigma > 0), (zero or ts.sigma == 0)
             lo, hi = P.framework.pars.at[name, "minimum value"], P.framework.pars.at[name, "maximum value"]
             vals = [float(v) for v in ts.vals] + ([float(ts.assumption)] if ts.assumption is not None else [])
-            # one-to-one visible in the results: untargeted data parameter, positive values far (>= 20 sigma) above a lower limit of 0
-            if ts.sigma > 0 and name not in targeted and (hi is None or hi != hi) and (lo is None or lo != lo or lo <= 0) and min(vals) > 0:
-                eff_par = True
     edge = False
     for i, kind, sig in src.get("edge", []):
         name, pop = cands[i % len(cands)]
@@ -443,6 +440,15 @@ def materialise(src):
                 ts.t, ts.vals, ts.assumption = [], [], (0.0 if kind == "zero-const" else 1.0)
             ts.sigma = float(sig)
         ppos = edge = True
+    # one-to-one visible in the results (judged on the final state of the entries): untargeted data parameter, no upper limit,
+    # positive values at least 20 sigma above a lower limit of 0
+    for name, pop in cands:
+        ts = ps.pars[name].ts[pop]
+        if ts.sigma is not None and ts.sigma > 0 and name not in targeted:
+            lo, hi = P.framework.pars.at[name, "minimum value"], P.framework.pars.at[name, "maximum value"]
+            vals = [float(v) for v in ts.vals] + ([float(ts.assumption)] if ts.assumption is not None else [])
+            if (hi is None or hi != hi) and (lo is None or lo != lo or lo <= 0) and min(vals) > 0 and ts.sigma <= 0.0501 * min(vals):
+                eff_par = True
     # initial stocks (compartment / characteristic databook entries): sigma = distance to the nearest other initial stock (or to 0) / z
     big_init = False
     icands = sorted((par.name, pop) for par in ps.all_pars() if par.name not in fpars and par.name in ps.pars for pop, ts in par.ts.items() if ts.has_data and len(ts.vals) >= 1)
